@@ -205,6 +205,10 @@ func runCase(c *Case) (out Outcome) {
 	case "sub_days", "sub_months", "sub_years":
 		span := intSpan(c.Op[4:], ints()[0])
 		res = call("-", pick("-", "-@3"), self, span)
+	case "add_days_dyn": // DateTime#+ : the run-time dispatched entry point
+		res = call("+ (dynamic)", native(value.DateTimeClass, "+"), self, intSpan("days", ints()[0]))
+	case "sub_days_dyn":
+		res = call("- (dynamic)", native(value.DateTimeClass, "-"), self, intSpan("days", ints()[0]))
 	case "add_clock":
 		res = call("+", native(value.DateTimeClass, "+@2"), self, clockSpan(ints()))
 	case "sub_clock":
